@@ -320,7 +320,7 @@ class DictCompV(V):
     fr: "Frame"
     env: dict
     mode: str = "keys"  # keys | values | items
-    taint: frozenset = frozenset({"?"})
+    taint: frozenset = frozenset({"GAP"})
 
 
 @dataclass(eq=False)
@@ -589,9 +589,9 @@ class Interp:
         if len(self.stack) > MAX_CALL_DEPTH or fi.fq in self.stack:
             # what a recursive call computes is not known: it may depend on anything, in particular on the external options
             self.note(f"call of {fi.qualname} not followed (recursion / depth)")
-            return Unknown(f"{fi.name}(..)", self._taints(args, kwargs) | {"EXT", "FLAG"})
+            return Unknown(f"{fi.name}(..)", self._taints(args, kwargs) | {"EXT", "FLAG", "GAP"})
         if fi.is_abstract:
-            return Unknown(f"{fi.name}(..)", self._taints(args, kwargs))
+            return Unknown(f"{fi.name}(..)", self._taints(args, kwargs) | {"GAP"})
         a = fi.node.args
         env: dict = dict(closure or {})
         params = [p.arg for p in [*a.posonlyargs, *a.args]]
@@ -600,7 +600,7 @@ class Interp:
             values = [selfv if not fi.is_classmethod else ClassRef(fi.cls), *values]
         if len(values) > len(params) and a.vararg is None:
             self.note(f"call of {fi.qualname}: too many positional arguments")
-            return Unknown(f"{fi.name}(..)", self._taints(args, kwargs))
+            return Unknown(f"{fi.name}(..)", self._taints(args, kwargs) | {"GAP"})
         for p, v in zip(params, values):
             env[p] = v
         if a.vararg is not None:
@@ -769,6 +769,11 @@ class Interp:
                 if it.optional_vars is not None:
                     self.assign(fr, it.optional_vars, v, s)
             return self.exec_block(fr, s.body)
+        if isinstance(s, ast.Try) and len(s.handlers) == 1 and s.handlers[0].type is not None and norm(s.handlers[0].type) in ("KeyError", "LookupError") and not s.orelse and not s.finalbody and any(isinstance(n, ast.Subscript) and isinstance(n.ctx, ast.Load) for st in s.body for n in ast.walk(st)):
+            # `try: return table[k]  except KeyError: v = f(k); table[k] = v; return v`: a look-up with a fallback.  The fallback
+            # runs first (under "missing") so that what it stores is what the look-up finds.
+            miss = self.free(f"MISSING[{norm(s.body[0], 40)}@{s.lineno}]")
+            return self.branch(fr, miss, s.handlers[0].body, s.body)
         if isinstance(s, ast.Try):
             ft = self.exec_block(fr, s.body)
             if ft != FALSE:
@@ -817,7 +822,7 @@ class Interp:
             case = s.cases[i]
             c = self.match_pattern(fr, subject, case.pattern)
             if c is None:
-                c = self.free(f"CASE[{key(subject)}:{norm(case.pattern, 30)}@{s.lineno}]", t | {"?"})
+                c = self.free(f"CASE[{key(subject)}:{norm(case.pattern, 30)}@{s.lineno}]", t | {"GAP"})
                 for n in ast.walk(case.pattern):
                     nm = getattr(n, "name", None)
                     if isinstance(nm, str):
@@ -942,7 +947,7 @@ class Interp:
             else:
                 out.append((g, v))
         if not out:
-            return Unknown("<no value>")
+            return Unknown("<no value>", frozenset({"GAP"}))
         if len(out) == 1:
             return out[0][1]
         return AltV(out)
@@ -953,7 +958,7 @@ class Interp:
             return [(TRUE, v)]
         cur = self.guard()
         out = [(g, x) for g, x in v.alts if self.sat(conj([cur, g]))]
-        return out or [(TRUE, Unknown("<no value>"))]
+        return out or [(TRUE, Unknown("<no value>", frozenset({"GAP"})))]
 
     def distribute(self, v: V, fn: Callable[[V], V]) -> V:
         alts = self.live(v)
@@ -1162,7 +1167,7 @@ class Interp:
                 taint: frozenset = frozenset()
                 for a in atoms_of(t):
                     taint |= self.taint_of_atom(a)
-                fr.env[name] = Unknown(f"{name}@loop", taint)
+                fr.env[name] = Unknown(f"{name}@loop", taint | {"GAP"})
 
     def take_run_conds(self) -> Formula:
         f = conj(self._run_conds)
@@ -1309,7 +1314,7 @@ class Interp:
             if indep:
                 return conj([*indep, self.exists(conj(depc), var)])
         name = f"∃{var}.{show(g)}"
-        t: frozenset = frozenset()
+        t: frozenset = frozenset({"GAP"})  # the quantifier structure is not resolved
         for a in dep:
             t |= self.taint_of_atom(a)
         return self.free(name, t)
@@ -1377,9 +1382,9 @@ class Interp:
                 elif isinstance(v, Unknown):
                     self.assign(fr, t, Unknown(f"{v.text}[{i}]", v.taint, v.maybe_none), stmt)
                 elif isinstance(v, (Elem, Importee, Anc)):
-                    self.assign(fr, t, Unknown(f"{key(v)}[{i}]"), stmt)
+                    self.assign(fr, t, Unknown(f"{key(v)}[{i}]", frozenset({"GAP"})), stmt)
                 else:
-                    self.assign(fr, t, Unknown(f"{key(v)}[{i}]", taint_of(v)), stmt)
+                    self.assign(fr, t, Unknown(f"{key(v)}[{i}]", taint_of(v) | {"GAP"}), stmt)
         elif isinstance(target, ast.Starred):
             self.assign(fr, target.value, v, stmt)
         elif isinstance(target, ast.Attribute):
@@ -1393,7 +1398,7 @@ class Interp:
                     recv.fields[target.attr] = v
                 else:
                     g = self.guard()
-                    unset = Unknown(f"<{recv.cls.name}.{target.attr} unset>")
+                    unset = Unknown(f"<{recv.cls.name}.{target.attr} unset>", frozenset({"GAP"}))
                     unset._unset = True  # type: ignore[attr-defined]
                     recv.fields[target.attr] = AltV([(g, v), (f_not(g), old if old is not None else unset)]) if not isinstance(old, AltV) else AltV([(g, v), *[(conj([f_not(g), h]), x) for h, x in old.alts]])
             else:
@@ -1550,7 +1555,7 @@ class Interp:
                 elif p.kind == "filter" and p.src is not None:
                     alts.append(conj([rename_sym(p.guard, p.sym, lpv.sym), self.member(v, p.src)]))
                 else:
-                    alts.append(conj([p.guard, self.free(f"IN[lineage({lpv.sym}),{c.label or 'collection'}]")]))
+                    alts.append(conj([p.guard, self.free(f"IN[lineage({lpv.sym}),{c.label or 'collection'}]", frozenset({"GAP"}))]))
             return disj(alts)
         k = key(v)
         alts = []
@@ -1562,7 +1567,7 @@ class Interp:
                 if p.base.startswith("scanned:"):
                     alts.append(conj([p.guard, atom(f"INSCAN[{k}]")]))
                 else:
-                    alts.append(conj([p.guard, self.free(f"IN[{k},{p.base}]", taint_of(v))]))
+                    alts.append(conj([p.guard, self.free(f"IN[{k},{p.base}]", taint_of(v) | {"GAP"})]))
             elif p.kind == "filter":
                 alts.append(conj([rename_sym(p.guard, p.sym, k), self.member(v, p.src)]))
             elif p.kind == "adds":
@@ -1578,7 +1583,7 @@ class Interp:
                 alts.append(self.free(f"IN[{k},{p.what}-of-{c.label or 'collection'}{tag}]", taint_of(v)))
             else:
                 for it in p.items:
-                    alts.append(conj([p.guard, self.free("EQ[" + ",".join(sorted([k, key(it)])) + "]", taint_of(v) | taint_of(it))]))
+                    alts.append(conj([p.guard, self.free("EQ[" + ",".join(sorted([k, key(it)])) + "]", self.cmp_taint(v, it))]))
         return disj(alts)
 
     def nonempty(self, c: Coll) -> Formula:
@@ -1723,6 +1728,18 @@ class Interp:
             left, lv = right, rv
         return conj(parts)
 
+    def cmp_taint(self, *vs: V) -> frozenset:
+        """Taint of a comparison: that of its operands; comparing things the model does not treat as plain data (objects,
+        collections as values, callables) is a modelling gap."""
+        t: frozenset = frozenset()
+        for v in vs:
+            t |= self.value_taint(v)
+            if isinstance(v, (Obj, Opaque, Coll, Fn, ClassRef, BoundAPI, DictV, DictCompV, MapV, EnumV, PartialV, AltV, SuperRef, StarV)):
+                t |= {"GAP"}
+            if isinstance(v, TupleV) and any(isinstance(i, (Obj, Opaque, Coll, Fn)) for i in v.items):
+                t |= {"GAP"}
+        return t
+
     def compare1(self, fr: Frame, le: ast.expr, lv: V, op: ast.cmpop, re_: ast.expr, rv: V) -> Formula:
         if isinstance(lv, AltV) and not isinstance(op, (ast.In, ast.NotIn)):
             return disj(conj([g, self.compare1(fr, le, x, op, re_, rv)]) for g, x in self.live(lv))
@@ -1738,7 +1755,7 @@ class Interp:
             elif lv is rv:
                 f = TRUE
             else:
-                f = self.free("IS[" + ",".join(sorted([key(lv), key(rv)])) + "]", taint_of(lv) | taint_of(rv))
+                f = self.free("IS[" + ",".join(sorted([key(lv), key(rv)])) + "]", self.cmp_taint(lv, rv))
             return f if isinstance(op, ast.Is) else f_not(f)
         if isinstance(op, (ast.In, ast.NotIn)) and isinstance(rv, Obj):
             m = self.repo.lookup_method(rv.cls, "__contains__")
@@ -1751,7 +1768,7 @@ class Interp:
             if isinstance(rv, (Coll, TupleV)) or (isinstance(rv, Unknown) and hasattr(rv, "_coll")) or (isinstance(rv, Unknown) and "PARSED" in rv.taint):
                 f = self.member(lv, self.as_coll(rv))
             else:
-                f = self.free(f"IN[{key(lv)},{key(rv)}]", taint_of(lv) | taint_of(rv))
+                f = self.free(f"IN[{key(lv)},{key(rv)}]", self.cmp_taint(lv, rv))
             return f if isinstance(op, ast.In) else f_not(f)
         if isinstance(op, (ast.Eq, ast.NotEq)):
             if isinstance(rv, Const) and isinstance(rv.value, bool):
@@ -1765,7 +1782,7 @@ class Interp:
                 if ln is not None and isinstance(rv, Const) and rv.value == 0:
                     f = f_not(self.truth(ln))
                 else:
-                    f = self.free("EQ[" + ",".join(sorted([key(lv), key(rv)])) + "]", taint_of(lv) | taint_of(rv))
+                    f = self.free("EQ[" + ",".join(sorted([key(lv), key(rv)])) + "]", self.cmp_taint(lv, rv))
             return f if isinstance(op, ast.Eq) else f_not(f)
         ln = self._len_arg(fr, le)
         if ln is not None and isinstance(rv, Const) and isinstance(rv.value, int):
@@ -1774,7 +1791,7 @@ class Interp:
                 return t
             if (isinstance(op, ast.Lt) and rv.value == 1) or (isinstance(op, ast.LtE) and rv.value == 0):
                 return f_not(t)
-        return self.free(f"CMP[{key(lv)} {type(op).__name__} {key(rv)}]", taint_of(lv) | taint_of(rv))
+        return self.free(f"CMP[{key(lv)} {type(op).__name__} {key(rv)}]", self.cmp_taint(lv, rv))
 
     def _len_arg(self, fr: Frame, e: ast.expr) -> "V | None":
         if isinstance(e, ast.Call) and isinstance(e.func, ast.Name) and e.func.id == "len" and len(e.args) == 1 and "len" not in fr.env:
@@ -1852,7 +1869,7 @@ class Interp:
             if len(e.generators) == 1:
                 return DictCompV(e, fr, dict(fr.env))
             self.note(f"{fr.fi.qualname}: dictionary `{norm(e, 40)}` not modelled (what is read from it is unknown)")
-            return DictV(f"{{dict@{e.lineno}}}", frozenset({"?"}))
+            return DictV(f"{{dict@{e.lineno}}}", frozenset({"GAP"}))
         if isinstance(e, ast.Dict):
             d = DictV(f"{{dict@{e.lineno}}}")
             for k_, v in zip(e.keys, e.values):
@@ -1894,19 +1911,19 @@ class Interp:
                 if isinstance(el, Elem) and r is not None and r.loop.active and r.loop.src.parts == v.parts:
                     return el  # xs[i] inside `for i, x in enumerate(xs)`
                 self.note(f"{fr.fi.qualname}: element selected from a collection by index ({norm(e, 40)})")
-                return Unknown(f"{key(v)}[..]")
+                return Unknown(f"{key(v)}[..]", frozenset({"GAP"}))
             if isinstance(v, (DictV, DictCompV)):
                 sl = self.ev(fr, e.slice)
                 if isinstance(v, DictV):
                     hit = self.dict_lookup(v, sl)
                     if hit is not None:
                         return hit
-                if isinstance(v, DictV) and root_elem(sl) is not None:
+                if isinstance(v, DictV) and (root_elem(sl) is not None or (isinstance(sl, Unknown) and mentions(sl.text, "x0") or isinstance(sl, Unknown) and any(mentions(sl.text, f"x{i}") for i in range(1, 5)))):
                     # a memo table: what was stored under this very key (by this or an earlier iteration of the same code)
                     for k_, val in reversed(v.stores):
                         if k_ == key(sl):
                             return val
-                return Unknown(f"{key(v)}[{key(sl)}]", v.taint | taint_of(sl))
+                return Unknown(f"{key(v)}[{key(sl)}]", v.taint | taint_of(sl) | {"GAP"})
             if isinstance(v, Unknown):
                 if isinstance(e.slice, ast.Slice):
                     return Unknown(f"{v.text}[{norm(e.slice, 20)}]", v.taint, v.maybe_none, v.patterns)
@@ -1936,7 +1953,7 @@ class Interp:
             return NoneV()
         if isinstance(e, ast.Await):
             return self.ev(fr, e.value)
-        return Unknown(norm(e, 40))
+        return Unknown(norm(e, 40), frozenset({"GAP"}))
 
     def ev_name(self, fr: Frame, e: ast.Name) -> V:
         if e.id in fr.env:
@@ -1983,7 +2000,7 @@ class Interp:
                     return Fn(c.methods[attr], v.obj)
                 if c is v.after or c == v.after:
                     seen_after = True
-            return Unknown(f"super().{attr}")
+            return Unknown(f"super().{attr}", frozenset({"GAP"}))
         if isinstance(v, Obj):
             if attr in v.fields:
                 fv = v.fields[attr]
@@ -2005,7 +2022,7 @@ class Interp:
                     return self.class_attr(fr, c, attr)
             if attr in ("_replace", "_asdict"):
                 return BoundAPI(v, attr)
-            return Unknown(f"{key(v)}.{attr}")
+            return Unknown(f"{key(v)}.{attr}", frozenset({"GAP"}))
         if isinstance(v, ClassRef):
             m = self.repo.lookup_method(v.ci, attr)
             if m is not None:
@@ -2013,7 +2030,7 @@ class Interp:
             for c in self.repo.mro(v.ci):
                 if attr in c.class_attrs:
                     return self.class_attr(fr, c, attr)
-            return Unknown(f"{v.ci.name}.{attr}")
+            return Unknown(f"{v.ci.name}.{attr}", frozenset({"GAP"}))
         if isinstance(v, Builtin):
             if v.name.startswith("module:"):
                 return self.resolve_dotted(self.repo._canonical(v.name[7:] + "." + attr))
@@ -2021,7 +2038,7 @@ class Interp:
         if isinstance(v, Unknown):
             return Unknown(f"{v.text}.{attr}", v.taint)
         if isinstance(v, (Const, NoneV, BoolV, TupleV)):
-            return Unknown(f"{key(v)}.{attr}")
+            return Unknown(f"{key(v)}.{attr}", frozenset({"GAP"}))
         if isinstance(v, Opaque):
             for ci in self.repo.classes.values():
                 if ci.name == v.cls:
@@ -2108,7 +2125,7 @@ class Interp:
                 alts.append(f)
             ex = disj(alts)
             return f_not(ex) if universal else ex
-        return self.free(("ALL" if universal else "ANY") + f"[{key(v)}]", taint_of(v))
+        return self.free(("ALL" if universal else "ANY") + f"[{key(v)}]", taint_of(v) | {"GAP"})
 
     def _quant_gen(self, fr: Frame, e: ast.expr, i: int, universal: bool) -> Formula:
         gens = e.generators
@@ -2188,7 +2205,7 @@ class Interp:
             if isinstance(f.recv, AltV):
                 return self.distribute(f.recv, lambda x: self.call_method(fr, x, f.attr, args, kwargs, e))
             return self.call_method(fr, f.recv, f.attr, args, kwargs, e)
-        t = self._taints(args, kwargs) | taint_of(f)
+        t = self._taints(args, kwargs) | taint_of(f) | {"GAP"}
         return Unknown(f"{key(f)}(..)", t)
 
     def call_fn(self, fr: Frame, f: Fn, args: list, kwargs: dict, e: ast.Call) -> V:
@@ -2200,7 +2217,7 @@ class Interp:
         if fi.name == "get_parent_modules" and fi.cls is None and (args or kwargs):
             return self.parents_of(fr, args[0] if args else next(iter(kwargs.values())), e)
         if not self.transparent_func(fi):
-            return Unknown(f"{fi.name}({','.join(key(a) for a in args)})", self._taints(args, kwargs) | (taint_of(f.selfv) if f.selfv is not None else frozenset()))
+            return Unknown(f"{fi.name}({','.join(key(a) for a in args)})", self._taints(args, kwargs) | (taint_of(f.selfv) if f.selfv is not None else frozenset()) | {"GAP"})
         res = self.call_function(fi, args, kwargs, f.selfv, f.closure, e, fr)
         return self.collapse_predicate(fi, f, args, kwargs, res)
 
@@ -2340,12 +2357,12 @@ class Interp:
         if name in ("itertools.groupby", "groupby") and len(args) == 1 and not kwargs:
             return EnumV(args[0], grouped=True)
         if name in ("dict", "collections.defaultdict", "defaultdict", "collections.OrderedDict", "OrderedDict", "collections.Counter", "Counter"):
-            return DictV(f"{name}()@{e.lineno}", t | (frozenset({"?"}) if args else frozenset()))
+            return DictV(f"{name}()@{e.lineno}", t | (frozenset({"GAP"}) if args else frozenset()))
         if name == "map":
             self.note(f"{fr.fi.qualname}: map(..) over several iterables not modelled")
-            return Unknown("map(..)", t)
+            return Unknown("map(..)", t | {"GAP"})
         if name in ("zip", "range", "min", "max", "sum", "next", "getattr", "hash", "id", "repr", "int", "abs"):
-            return Unknown(f"{name}({','.join(key(a) for a in args)})", t, None if name in ("next", "getattr") else False)
+            return Unknown(f"{name}({','.join(key(a) for a in args)})", t | ({"GAP"} if name in ("next", "getattr", "zip") else frozenset()), None if name in ("next", "getattr") else False)
         if name.endswith("Exception") or name.endswith("Error"):
             return Opaque(name, t)
         return Unknown(f"{name}({','.join(key(a) for a in args)})", t)
@@ -2399,7 +2416,7 @@ class Interp:
             return acc_v
         if len(args) < 3:
             self.note(f"{fr.fi.qualname}: reduce without initial value not modelled")
-            return Unknown("reduce(..)", self._taints(args, {}))
+            return Unknown("reduce(..)", self._taints(args, {}) | {"GAP"})
         acc = self.copy_of(args[2])
         n0 = len(acc.parts)
         first = list(acc.parts)
@@ -2427,7 +2444,7 @@ class Interp:
             ok = False
         if not ok:
             self.note(f"{fr.fi.qualname}: reduce with a step function that does not hand back its (extended) accumulator is not modelled")
-            return Unknown("reduce(..)", self._taints(args, {}))
+            return Unknown("reduce(..)", self._taints(args, {}) | {"GAP"})
         return acc
 
     def builtin_filter(self, fr: Frame, pred: V, src: V, e: ast.Call, keep: bool) -> V:
@@ -2499,7 +2516,7 @@ class Interp:
                 return Unknown(f"{recv.cls}.{attr}()", recv.taint | {"PARSED"}, False)
             if recv.cls == "ImportConverter":
                 return Unknown(f"{recv.cls}.{attr}()", (t | {"CONVERTED"}) - {"PARSED"}, False)
-            return Unknown(f"{key(recv)}.{attr}({','.join(key(a) for a in args)})", t)
+            return Unknown(f"{key(recv)}.{attr}({','.join(key(a) for a in args)})", t | {"GAP"})
         if isinstance(recv, Obj):
             m = self.repo.lookup_method(recv.cls, attr)
             if m is not None:
@@ -2511,7 +2528,7 @@ class Interp:
             fv = recv.fields.get(attr)
             if isinstance(fv, Fn):
                 return self.call_fn(fr, fv, args, kwargs, e)
-            return Unknown(f"{key(recv)}.{attr}(..)", t)
+            return Unknown(f"{key(recv)}.{attr}(..)", t | {"GAP"})
         if isinstance(recv, Unknown):
             if recv.patterns and attr in ("__len__", "__bool__"):
                 return Unknown(f"{recv.text}.{attr}()", recv.taint, False, patterns=True)
@@ -2521,7 +2538,7 @@ class Interp:
         if isinstance(recv, DictCompV):
             if attr in ("items", "values", "keys") and not args:
                 return DictCompV(recv.node, recv.fr, recv.env, attr)
-            return Unknown(f"{key(recv)}.{attr}(..)", t | recv.taint)
+            return Unknown(f"{key(recv)}.{attr}(..)", t | recv.taint | {"GAP"})
         if isinstance(recv, DictV) and attr in ("get", "__getitem__") and args:
             hit = self.dict_lookup(recv, args[0], (args[1] if len(args) > 1 else NoneV()) if attr == "get" else None)
             if hit is not None:
@@ -2534,12 +2551,12 @@ class Interp:
                     recv.stores.append((key(args[0]), args[1]))
                     if attr == "setdefault" and root_elem(args[0]) is not None:
                         return args[1]
-            return Unknown(f"{recv.text}.{attr}({','.join(key(a) for a in args)})", t | recv.taint)
+            return Unknown(f"{recv.text}.{attr}({','.join(key(a) for a in args)})", t | recv.taint | {"GAP"})
         if isinstance(recv, Const) and isinstance(recv.value, str):
             return Unknown(f"{recv.value!r}.{attr}({','.join(key(a) for a in args)})", t, False)
         if isinstance(recv, TupleV):
-            return Unknown(f"{key(recv)}.{attr}(..)", t)
-        return Unknown(f"{key(recv)}.{attr}(..)", t)
+            return Unknown(f"{key(recv)}.{attr}(..)", t | {"GAP"})
+        return Unknown(f"{key(recv)}.{attr}(..)", t | {"GAP"})
 
     def coll_method(self, fr: Frame, c: Coll, attr: str, args: list, kwargs: dict, e: ast.Call) -> V:
         if attr in ("append", "add", "appendleft") and args:
@@ -2574,14 +2591,14 @@ class Interp:
                     return Elem(lp.sym, lp)
         if attr in ("remove", "discard", "pop", "popleft", "clear", "popitem"):
             c.removals.append((self.guard(), norm(e, 60), fr.fi, e))
-            return Unknown(f"{key(c)}.{attr}()") if attr in ("pop", "popitem", "popleft") else NoneV()
+            return Unknown(f"{key(c)}.{attr}()", frozenset({"GAP"})) if attr in ("pop", "popitem", "popleft") else NoneV()
         if attr in ("sort", "reverse"):
             return NoneV()
         if attr in ("keys", "values"):
             return self.copy_of(c)
         if attr == "items":
             self.note(f"{fr.fi.qualname}: .items() of a tracked collection not modelled")
-            return Unknown(f"{key(c)}.items()")
+            return Unknown(f"{key(c)}.items()", frozenset({"GAP"}))
         if attr == "__contains__" and args:
             return BoolV(self.member(args[0], c))
         if attr in ("issubset", "issuperset", "isdisjoint") and len(args) == 1:
@@ -2610,8 +2627,8 @@ class Interp:
                 alts.append(f_)
             return BoolV(f_not(disj(alts)))
         if attr in ("count", "index"):
-            return Unknown(f"{key(c)}.{attr}(..)", self._taints(args, kwargs))
-        return Unknown(f"{key(c)}.{attr}(..)", self._taints(args, kwargs))
+            return Unknown(f"{key(c)}.{attr}(..)", self._taints(args, kwargs) | {"GAP"})
+        return Unknown(f"{key(c)}.{attr}(..)", self._taints(args, kwargs) | {"GAP"})
 
 
 # --------------------------------------------------------------------------- queries on the descriptions
